@@ -25,7 +25,15 @@ class NegGen(harness.Gen):
         # so `clear()` (which calls resize()) gets its own TU (variant 1)
         self.variant = variant
 
-    def stmt(self, code, what):
+    def stmt(self, code, what, iso=False):
+        # variant 2: statements whose rejection may surface as a hard error deep inside an accessor (attributed to no
+        # line): each of them is compiled alone
+        if (self.variant == 2) != bool(iso):
+            return
+        if iso:
+            self.out.append("    " + code)
+            self.tags[len(self.out)] = what
+            return
         is_clear = code.endswith(".clear();") and "v." in code and "()." in code and "resize" not in code and what.endswith(".clear") and "[" not in what
         group_clear = is_clear and not what.endswith("data.clear") and getattr(self, "_in_group_stmt", False)
         if self.variant == 1 and not group_clear:
@@ -127,6 +135,18 @@ class NegGen(harness.Gen):
             if k in ("scalar", "enum", "set"):
                 for kn, ce in harness.CURSOR_KINDS[:4]:
                     self.stmt("v.%s(decltype(v.%s()){}, %s);" % (f.name, f.name, ce), what + " cursor setter, const cursor on mutable view (%s)" % kn)
+            elif k == "array":
+                for kn, ce in harness.CURSOR_KINDS[:4]:
+                    self.stmt("v.%s(%s).fill({});" % (f.name, ce), what + " array obtained through a const cursor on a mutable view (%s): fill" % kn, iso=True)
+        # views handed out by cursor accessors take their constness from the cursor
+        for g, sub in gsubs:
+            what = "::".join(path + [g.name])
+            for kn, ce in harness.CURSOR_KINDS[:4]:
+                self.stmt("::sbepp::fill_group_header(v.%s(%s), 1);" % (g.name, ce), what + " group obtained through a const cursor on a mutable view (%s): fill_group_header" % kn, iso=True)
+        for d in lvl.data:
+            what = "::".join(path + [d.name])
+            for kn, ce in harness.CURSOR_KINDS[:4]:
+                self.stmt("v.%s(%s).push_back({});" % (d.name, ce), what + " data obtained through a const cursor on a mutable view (%s): push_back" % kn, iso=True)
         for g, sub in gsubs:
             self.w("    %s_cur(v.%s().front(), c);" % (sub, g.name))
         self.w("}")
@@ -226,6 +246,8 @@ def check_c11_schema(chk, sref, root, std="c++17", compiler="clang++"):
     n = check_c11_variant(chk, sref, root, std, compiler, 0)
     if any(True for lvl, _, _ in sref.model.levels() if lvl.groups):
         n += check_c11_variant(chk, sref, root, std, compiler, 1)
+    if std == "c++17":
+        n += check_c11_variant(chk, sref, root, std, compiler, 2)
     return n
 
 
@@ -246,7 +268,7 @@ def check_c11_one_by_one(chk, sref, src, tags, p, flags, std, compiler):
     def compiles(keep):
         q = os.path.join(d, "%s_%s_%s_%d.cpp" % (base, compiler.replace("+", "p"), std.replace("+", "p"), keep))
         open(q, "w").write(variant_src(keep))
-        r = run([compiler, "-fsyntax-only", "-w", "-fmax-errors=1"] + flags + [q])
+        r = run([compiler, "-fsyntax-only", "-w", "-fmax-errors=1" if compiler != "clang++" else "-ferror-limit=1"] + flags + [q])
         try:
             os.unlink(q)
         except OSError:
@@ -282,7 +304,7 @@ def check_c11_variant(chk, sref, root, std, compiler, variant):
     p = os.path.join(d, "neg%d_%s.cpp" % (variant, sref.name))
     open(p, "w").write(src)
     flags = ["-std=" + std, "-I" + os.path.join(REPO, "sbepp/src"), "-I" + schemas.HARNESS_DIR, "-I" + root]
-    if compiler != "clang++":
+    if compiler != "clang++" or variant == 2:
         return check_c11_one_by_one(chk, sref, src, tags, p, flags, std, compiler)
     rc, blocks, err = compile_neg(p, flags, compiler)
     if rc == 0:
